@@ -107,6 +107,29 @@ int run_script(std::size_t block_size, const std::string& header)
             check("after-unwind");
             char b[64]; std::snprintf(b, sizeof b, "done m%zu", k); res = b;
         }
+        else if (op == "raii")
+        {   // two unwind guards on markers k1 < k2; the inner guard is move-assigned from the outer one: the assignment unwinds to the
+            // inner marker (logged as "unwind k2"), the guard that is left unwinds to the outer marker at the end of the scope
+            // (logged as "unwind k1")
+            std::size_t k1, k2; is >> k1 >> k2;
+            if (markers.size() < 2) { std::printf("%s = skipped\n", line.c_str()); continue; }
+            k1 %= markers.size() - 1; k2 = k1 + 1 + k2 % (markers.size() - 1 - k1);
+            check("before-unwind");
+            {
+                memory_stack_raii_unwind<Stack> outer(*st, markers[k1].m), inner(*st, markers[k2].m);
+                inner = std::move(outer);
+                live.resize(std::min(live.size(), markers[k2].nlive));
+                markers.erase(markers.begin() + long(k2) + 1, markers.end());
+                check("after-unwind");
+                std::string ev1 = U.take();
+                std::printf("unwind %zu = done m%zu |%s | %s\n", k2, k2, ev1.c_str(), caps().c_str());
+            }
+            live.resize(std::min(live.size(), markers[k1].nlive));
+            markers.erase(markers.begin() + long(k1) + 1, markers.end());
+            check("after-unwind");
+            char b[64]; std::snprintf(b, sizeof b, "done m%zu", k1); res = b;
+            line = "unwind " + std::to_string(k1);
+        }
         else if (op == "shrink") { st->shrink_to_fit(); res = "done"; }
         else if (op == "q") res = "q";
         else if (op == "fail") { long k; is >> k; U.fail_at = U.calls + k; res = "set"; }
